@@ -260,10 +260,16 @@ impl Space for Layered {
 // ---------------------------------------------------------------------------------------------------
 // stateright adapter
 
+type Job = (String, Vec<Line>, usize);
+
+/// stateright enumerates and deduplicates the states; the (expensive) execution of the real code on each
+/// state is handed to a pool of evaluation workers through a bounded queue, because stateright only
+/// re-balances work between its threads every 1500 states.
 pub struct Mc<Sp: Space, C: StateCheck> {
     pub space: Sp,
-    pub check: C,
     pub shared: Arc<Shared>,
+    tx: std::sync::mpsc::SyncSender<Job>,
+    _c: std::marker::PhantomData<fn() -> C>,
 }
 
 impl<Sp: Space, C: StateCheck> Model for Mc<Sp, C> {
@@ -294,18 +300,56 @@ impl<Sp: Space, C: StateCheck> Mc<Sp, C> {
         let Some((base, lines)) = self.space.lines(s) else {
             return;
         };
-        let mut out = Out::default();
         let depth = self.space.depth(s);
-        crate::core::run_state(&self.check, &base, &lines, depth, &self.shared, &mut out);
+        let _ = self.tx.send((base, lines, depth));
     }
 }
 
-/// Explore a space exhaustively (BFS, all cores); returns (unique states, generated states, max depth, done).
-pub fn explore<Sp: Space, C: StateCheck>(ctx: &Ctx, name: &str, space: Sp, check: C, shared: Arc<Shared>) {
+/// Explore a space exhaustively (stateright BFS enumerates; all cores evaluate).
+pub fn explore<Sp: Space, C: StateCheck + Clone>(ctx: &Ctx, name: &str, space: Sp, check: C, shared: Arc<Shared>) {
     let t0 = std::time::Instant::now();
-    let m = Mc { space, check, shared: shared.clone() };
+    let (tx, rx) = std::sync::mpsc::sync_channel::<Job>(4096);
+    let rx = Arc::new(std::sync::Mutex::new(rx));
+    let mut workers = vec![];
+    for w in 0..ctx.threads {
+        let rx = rx.clone();
+        let check = check.clone();
+        let shared = shared.clone();
+        workers.push(
+            std::thread::Builder::new()
+                .name(format!("eval-{w}"))
+                .stack_size(16 << 20)
+                .spawn(move || loop {
+                    let job = { rx.lock().unwrap().recv() };
+                    match job {
+                        Ok((base, lines, depth)) => {
+                            if shared.stop.load(std::sync::atomic::Ordering::Relaxed) {
+                                continue;
+                            }
+                            let mut out = Out::default();
+                            crate::core::run_state(&check, &base, &lines, depth, &shared, &mut out);
+                        }
+                        Err(_) => break,
+                    }
+                })
+                .expect("spawn evaluation worker"),
+        );
+    }
     let budget = ctx.model_budget();
-    let checker = m.checker().threads(ctx.threads).timeout(budget).spawn_bfs().join();
-    let done = checker.is_done() && !shared.stop.load(std::sync::atomic::Ordering::Relaxed) && t0.elapsed() < budget;
-    shared.add_model_run(name, checker.unique_state_count() as u64, checker.state_count() as u64, checker.max_depth() as u64, done, t0.elapsed().as_secs_f64());
+    let m: Mc<Sp, C> = Mc { space, shared: shared.clone(), tx, _c: std::marker::PhantomData };
+    let checker = m.checker().threads(2).timeout(budget).spawn_bfs().join();
+    let enumerated = checker.is_done() && t0.elapsed() < budget;
+    let (unique, generated, depth) = (checker.unique_state_count() as u64, checker.state_count() as u64, checker.max_depth() as u64);
+    if !enumerated {
+        // cap fired: do not evaluate what is still queued
+        shared.stop.store(true, std::sync::atomic::Ordering::Relaxed);
+    }
+    // the model (and with it the sender) is owned by the checker
+    drop(checker);
+    for w in workers {
+        let _ = w.join();
+    }
+    let done = enumerated && !shared.stop.load(std::sync::atomic::Ordering::Relaxed);
+    shared.stop.store(false, std::sync::atomic::Ordering::Relaxed);
+    shared.add_model_run(name, unique, generated, depth, done, t0.elapsed().as_secs_f64());
 }
